@@ -24,6 +24,7 @@ CONFIG = dict(
                  "a continuation request is available and granted (refusal of a synchronising literal is C18's subject)",
                  "number sets handed to the encoder are in canonical form (raw struct literals outside it are compared with the model but not judged)"],
     leanchecker=True,
+    source_facts=True,
     level_text="proof: round-trip theorems about the mirrored encoder/decoder for every byte string, number, flag, mailbox name, number set and value tree under every mode combination, with refusal theorems judged against RFC 9051 syntax; the mirror is tied to imapwire's Encoder and the peer's Decoder on every run, and an RFC-side oracle (strict string reader, flag grammar, literal-mode rules, the two documented canonicalisations) judges what the implementation wrote and what the peer read",
     level_note="Trusted: Lean kernel; harness/driver; bufio/strconv/strings below the modelled interface. The header of lean/GoImap/Props/C01.lean lists which theorems are proved and which clauses are validated by the oracle only.",
 )
